@@ -1,0 +1,25 @@
+//go:build verif
+
+package storage
+
+// Contracts checked by /verif (gvc). This file contains comments only and is compiled only with -tags verif.
+//
+// Property C11 ("the credited amounts are a function of the chain alone"): epoch statistics are folded together from
+// cached period points. Folding must never make the accumulated point share a ProducerDetail object with the point it
+// absorbs, otherwise later merges write epoch totals into the cached period point and the statistics depend on how often
+// they were recomputed. separate(p, left): no producer entry of p is the same object as the entry of left under any key.
+//@ spec separate(p *Point, left *Point) bool = forall k1 string, k2 string :: has(p.Pillars, k1) && has(left.Pillars, k2) ==> p.Pillars[k1] != left.Pillars[k2]
+
+//@ func ProducerDetail.Copy(detail)
+//@   ensures result != nil && fresh(result) && result.ExpectedNum == detail.ExpectedNum && result.FactualNum == detail.FactualNum
+//@   modifies nothing
+
+//@ func Point.LeftAppend(p, left)
+//@   requires p != nil && left != nil && p != left && p.Pillars != left.Pillars && p.Pillars != nil
+//@   requires separate(p, left)
+//@   requires forall k string :: has(left.Pillars, k) ==> left.Pillars[k] != nil && allocated(left.Pillars[k])
+//@   ensures[no-shared-details] separate(p, left)
+//@   loop 1
+//@     invariant separate(p, left)
+//@     invariant p.Pillars == old(p.Pillars) && left.Pillars == old(left.Pillars)
+//@     invariant forall k string :: has(left.Pillars, k) ==> left.Pillars[k] != nil && allocated(left.Pillars[k])
